@@ -76,7 +76,7 @@ def _lines_without(text, names):
 
 
 def _mk_changes(api):
-    def K_changes(k0: int, op0: int, k1: int, op1: int, two: bool, s: str, n: int) -> int:
+    def K_changes(k0: int, op0: int, k1: int, op1: int, two: bool, s: str, n: int, empty_meta: bool) -> int:
         """
         pre: 0 <= k0 <= 5 and 0 <= k1 <= 5 and 0 <= op0 <= 7 and 0 <= op1 <= 7 and len(s) <= 2
         post: _ != 0
@@ -85,6 +85,8 @@ def _mk_changes(api):
         from octave_mcp.mcp import write as w
 
         doc = _doc()
+        if empty_meta:
+            doc.meta = {}  # a file without META block (or after META was cleared by an earlier request)
         nodes_before = list(doc.sections)
         values_before = [getattr(x, "value", None) for x in nodes_before]
         blk_children = list(doc.sections[1].children)
@@ -324,7 +326,7 @@ def K_cli_changes(k0: int, op0: int) -> int:
 def obligations(tier):
     fns = ["mcp.write.WriteTool._apply_changes", "_apply_mutations", "_is_delete_sentinel", "_normalize_value_for_ast"]
     obs = [
-        xh_ob(PROP, "K.changes-frame-and-tristate", _mk_changes("tool"), timeout=1800, bound="document with top-level assignments A, B, C, a block and a section that reuse the names A/B, META{M1,M2}; request of 1-2 entries: key by symbolic index from {A, B, fresh, META.M1, META.NEW, META}, operation from {DELETE, null, str <= 2 chars, any int, list, dict, empty string, empty list}", functions=fns),
+        xh_ob(PROP, "K.changes-frame-and-tristate", _mk_changes("tool"), timeout=1800, bound="document with top-level assignments A, B, C, a block and a section that reuse the names A/B, META{M1,M2} or no META at all; request of 1-2 entries: key by symbolic index from {A, B, fresh, META.M1, META.NEW, META}, operation from {DELETE, null, str <= 2 chars, any int, list, dict, empty string, empty list}", functions=fns),
         xh_ob(PROP, "K.unnamed-keys-keep-their-lines", K_lines, timeout=600, bound="same document (quoted values, multi-line lists, comments); one request entry: 6 keys x 8 operations; canonical lines of everything not named compared before/after", functions=fns + ["emitter.emit"]),
         xh_ob(PROP, "K.absent-never-emitted", _mk_absent(), timeout=600, bound="Absent (and, as control, null) at 9 sites: top-level, block child, section child, META field, nested META field, list item, inline-map value, all items of a list, last node", functions=["emitter.emit", "emit_block", "emit_section", "emit_meta", "emit_value", "_emit_multiline_list", "_needs_multiline", "is_absent"]),
         xh_ob(PROP, "K.cli-changes-branch", K_cli_changes, timeout=600, bound="`octave write --changes` callback: 6 keys x 8 operations; document handed to the writer equals the tool's", functions=["cli.main.write (changes branch)"], stubs=["pathlib.Path, parse, atomic_write_octave, validate_octave_path stubbed for the duration of the call"]),
